@@ -1477,6 +1477,8 @@ class Interp:
                     self.exec_block(fn.node.body, env)
                 except ReturnEx:
                     pass
+                if "$yield_value" in env.vars:  # a registered loop rule summarised the generator
+                    return env.vars["$yield_value"]
                 if env.vars.get("$yield_symbolic"):
                     items = env.vars["$yield"]
                     if len(items) != 1:
